@@ -2,7 +2,7 @@
 import numpy as np
 from hypothesis import strategies as st
 
-from checks.common import S, Raised, call, perm_from_noise, polygon_is_convex_ccw
+from checks.common import S, Raised, as_layout, call, perm_from_noise, polygon_is_convex_ccw
 from gen import curved, points, zoo
 from gen import poly as gp
 from harness.runner import Clause
@@ -38,7 +38,8 @@ def _ccase(draw, k):
 def _finish(rec, shape, P3, P2, kinds, want, dist, size, sig, case, sigfn=None):
     n = len(P3)
     safe = dist > MARGIN * size
-    arg = P3.copy()
+    arg = as_layout(P3, case.get("single", 0))  # the batch in one of four memory layouts
+    rec.label("layout:%d" % (case.get("single", 0) % 4))
     got = call(shape.is_inside, arg)
     if isinstance(got, Raised):
         rec.fail("is_inside_batch", dict(sig, type=got.type), msg=got.msg)
